@@ -58,6 +58,10 @@ type Task struct {
 	goid    uint64 // id of the goroutine that runs the task
 	// BlockedSite is the lock site at which the task last found a lock taken
 	BlockedSite uint32
+	// sleepUntil: the task is stalled until the global step counter reaches
+	// this value (a caller that is descheduled for a long time right after a
+	// synchronisation point - the "slow node" at an arbitrary instant)
+	sleepUntil uint64
 	// blockedAt is the value of Sched.progress when the task last found a
 	// lock taken; it is not scheduled again before somebody else has run.
 	blockedAt int64
@@ -106,6 +110,9 @@ type Sched struct {
 	Watchdog        time.Duration
 	progress        int64 // hand-offs that were not "lock taken"
 	freeRunDeadline time.Duration
+	syncSwitch      bool  // the hand-off in progress was forced at a synchronisation point
+	Naps            int   // long stalls imposed right after a synchronisation point
+	TestNapAt       int   // experiments only: nap exactly at the n-th forced synchronisation switch
 	syncCountdown   int64 // synchronisation points until a forced switch (-1: never)
 	SyncPoints      int   // synchronisation points passed
 	SyncSwitches    int   // context switches forced at synchronisation points
@@ -263,6 +270,7 @@ func (s *Sched) SyncPoint(site uint32) {
 	}
 	s.SyncSwitches++
 	s.lastSite = site
+	s.syncSwitch = true
 	s.handoff(t, evYield)
 }
 
@@ -373,11 +381,23 @@ func (s *Sched) runnable() (out []*Task, ok bool) {
 			continue
 		}
 		live = append(live, t)
-		if t.blockedAt <= s.progress {
+		if t.blockedAt <= s.progress && t.sleepUntil <= s.Steps {
 			out = append(out, t)
 		}
 	}
 	if len(out) == 0 {
+		// nobody is runnable: if somebody is merely asleep, the earliest
+		// sleeper wakes up (time jumps); otherwise everybody waits for a lock
+		var first *Task
+		for _, t := range live {
+			if t.blockedAt <= s.progress && (first == nil || t.sleepUntil < first.sleepUntil) {
+				first = t
+			}
+		}
+		if first != nil {
+			first.sleepUntil = 0
+			return []*Task{first}, true
+		}
 		return live, false
 	}
 	return out, true
@@ -552,6 +572,24 @@ func (s *Sched) Run() {
 			s.PreemptAt[s.lastSite]++
 			s.Pairs[uint64(prevSite)<<32|uint64(s.lastSite)] = struct{}{}
 			prevSite = s.lastSite
+		}
+		if s.syncSwitch {
+			// right after a synchronisation point the caller may be stalled
+			// for a long time (tape-decided), while the others carry on
+			s.syncSwitch = false
+			// (one switch in four: if every caller napped at every
+			// synchronisation point they would merely take turns)
+			nap := []uint64{0, 0, 0, 0, 0, 0, 0, 0, 0, 0, 0, 0, 20_000, 200_000, 2_000_000, 2_000_000}[s.T.Choose("sched", "nap", 16)]
+			if s.TestNapAt > 0 {
+				nap = 0
+				if s.SyncSwitches == s.TestNapAt {
+					nap = 2_000_000
+				}
+			}
+			if nap > 0 {
+				next.sleepUntil = s.Steps + nap
+				s.Naps++
+			}
 		}
 		if ev == evBlocked {
 			next.blockedAt = s.progress + 1
